@@ -33,7 +33,7 @@ package stree
 //@+     && (forall k int :: {x.left.rep[k]} inK(x.left, k) ==> x.rep[k] == x.left.rep[k])
 //@+     && (forall k int :: {x.right.rep[k]} inK(x.right, k) ==> x.rep[k] == x.right.rep[k])
 //@+     && (forall y ref :: {y in x.left.desc} {y in x.right.desc} !(inD(x.left, y) && inD(x.right, y)))
-//@ pred closed(y *node[T]) := (forall z *node[T] :: {z in y.desc} z in y.desc ==> (forall w ref :: {w in z.desc, w in y.desc} w in z.desc ==> w in y.desc) && (forall k int :: {k in z.keys, k in y.keys} k in z.keys ==> k in y.keys && z.rep[k] == y.rep[k]))
+//@ pred closed(y *node[T]) := (forall z *node[T] :: {z in y.desc} z in y.desc ==> (forall w ref :: {w in z.desc} w in z.desc ==> w in y.desc) && (forall k int :: {k in z.keys} k in z.keys ==> k in y.keys && z.rep[k] == y.rep[k]))
 //@ pred treeOK(n *node[T], cmp func(T, T) int) := n != nil ==> allocated(n) && n in n.desc
 //@+     && (forall y *node[T] :: {y in n.desc} y in n.desc ==> y != nil && allocated(y) && local(y, cmp) && closed(y))
 //@ pred treeInv(t *Tree[T]) := t != nil && treeOK(t.root, t.compare)
@@ -267,7 +267,13 @@ package stree
 // of the tree outside the subtree of a path node compares with all keys of that subtree the way it compares with the
 // node's own key (the subtree's keys are an interval of the tree's keys). Established by pathTo and Root, kept by
 // every move; it is what makes "the next key" a statement about the whole tree.
-//@ pred ordPath(p []*node[T], cmp func(T, T) int) := len(p) > 0 ==> treeOK(p[0], cmp)
+// treeRO is treeOK with goal-directed triggers on the transitivity clauses (an instance is produced only when its
+// conclusion is already a term of the query): the same formula, so treeOK implies it, but a hypothesis treeRO does not
+// unfold the tree level after level (left(left(...))) the way treeOK does. Cursors only read the tree.
+//@ pred closedRO(y *node[T]) := (forall z *node[T] :: {z in y.desc} z in y.desc ==> (forall w ref :: {w in z.desc, w in y.desc} w in z.desc ==> w in y.desc) && (forall k int :: {k in z.keys, k in y.keys} k in z.keys ==> k in y.keys && z.rep[k] == y.rep[k]))
+//@ pred treeRO(n *node[T], cmp func(T, T) int) := n != nil ==> allocated(n) && n in n.desc
+//@+     && (forall y *node[T] :: {y in n.desc} y in n.desc ==> y != nil && allocated(y) && local(y, cmp) && closedRO(y))
+//@ pred ordPath(p []*node[T], cmp func(T, T) int) := len(p) > 0 ==> treeRO(p[0], cmp)
 //@+     && (forall j int :: {p[j]} 0 <= j && j < len(p) ==> p[j] in p[0].desc)
 //@+     && (forall j int, k int, m int :: {p[j], k in p[0].keys, m in p[j].keys} 0 <= j && j < len(p) && k in p[0].keys && !(k in p[j].keys) && m in p[j].keys ==> ((k < m) <==> (k < rank(cmp, p[j].X))))
 //@ pred samePrefix(c *Cursor[T], n int) := forall k int :: {c.path[k]} 0 <= k && k < n && k < len(c.path) ==> c.path[k] == old(c.path[k])
